@@ -2456,7 +2456,11 @@ impl BytecodeVM {
                         &prop_key,
                     )?
                 } else {
-                    obj_ref.borrow().has_own_property(&prop_key)
+                    // own properties, array elements, and everything inherited
+                    obj_ref
+                        .borrow()
+                        .get_property_descriptor(&prop_key)
+                        .is_some()
                 };
 
                 self.set_reg(dst, JsValue::Boolean(has_prop));
